@@ -277,8 +277,24 @@ func subscribe(get func(context.Context) <-chan string, mode string, sb *subs) {
 
 var quietLog = slog.NewTextHandler(io.Discard, nil)
 
+// compHold is a composite runner whose second configuration callback (the one a reload makes) blocks until the
+// composite's own Run() has returned: the reload's restart then boots its new children after the return.
+type compHold struct {
+	*composite.Runner[supervisor.Runnable]
+	release chan struct{}
+	once    sync.Once
+}
+
+func (c *compHold) Run(ctx context.Context) error {
+	err := c.Runner.Run(ctx)
+	c.once.Do(func() { close(c.release) })
+	return err
+}
+
 func leakSup(sc LeakScenario) leakResult {
 	rec := &evRec{t0: time.Now()}
+	held := make(chan struct{})
+	var heldOnce sync.Once
 	var live atomic.Int32
 	teardown := make(chan struct{})
 	defer close(teardown)
@@ -288,6 +304,29 @@ func leakSup(sc LeakScenario) leakResult {
 		switch c {
 		case "flap":
 			rs = append(rs, newFlapper())
+		case "comphold":
+			kids := []supervisor.Runnable{&lcChild{name: "ka", lc: lifecycle.New()}, &lcChild{name: "kb", lc: lifecycle.New()}, &lcChild{name: "kc", lc: lifecycle.New()}}
+			ch := &compHold{release: make(chan struct{})}
+			var calls atomic.Int32
+			cb := func() (*composite.Config[supervisor.Runnable], error) {
+				var es []composite.RunnableEntry[supervisor.Runnable]
+				if calls.Add(1) == 1 {
+					es = append(es, composite.RunnableEntry[supervisor.Runnable]{Runnable: kids[0], Config: 0})
+				} else {
+					heldOnce.Do(func() { close(held) })
+					select {
+					case <-ch.release:
+					case <-time.After(3 * time.Second):
+					}
+					es = append(es, composite.RunnableEntry[supervisor.Runnable]{Runnable: kids[1], Config: 0},
+						composite.RunnableEntry[supervisor.Runnable]{Runnable: kids[2], Config: 0})
+				}
+				return composite.NewConfig("held", es)
+			}
+			rn, err := composite.NewRunner(cb, composite.WithLogHandler[supervisor.Runnable](quietLog))
+			must(err)
+			ch.Runner = rn
+			rs = append(rs, ch)
 		case "http":
 			addr := freeAddr()
 			rt, _ := httpserver.NewRouteFromHandlerFunc("r", "/", func(w http.ResponseWriter, _ *http.Request) { _, _ = w.Write([]byte("x")) })
@@ -324,6 +363,12 @@ func leakSup(sc LeakScenario) leakResult {
 		switch o {
 		case "hup":
 			sv.SendSignal(syscall.SIGHUP)
+		case "huphold": // a SIGHUP whose reload pass is parked inside the composite's configuration callback
+			sv.SendSignal(syscall.SIGHUP)
+			select {
+			case <-held:
+			case <-time.After(time.Second):
+			}
 		case "usr":
 			sv.SendSignal(syscall.SIGUSR1)
 		case "rtrig":
@@ -798,6 +843,10 @@ var leakCorpus = []LeakScenario{
 	{Target: "http", Round: []string{"reloadc", "req"}, Rounds: 2, End: "stop", Tail: []string{"suba"}},                   // abandoned subscription across Stop (C18-F3)
 	{Target: "fsm", Round: []string{"subd", "flip"}, Rounds: 3, End: "stop", Tail: []string{"suba"}},
 	{Target: "comp", Round: []string{"reloadm", "subd"}, Rounds: 3, End: "stop"},
+	// SIGHUP, then SIGTERM while the composite's restart reload is still fetching its configuration: the restart boots
+	// after the composite's Run() has returned; the supervisor terminates cleanly and nothing may be left behind
+	{Target: "sup", Caps: []string{"comphold"}, Round: []string{"getmap"}, Rounds: 1, Tail: []string{"huphold"}, End: "term"},
+	{Target: "sup", Caps: []string{"0100", "comphold"}, Round: []string{"getmap"}, Rounds: 1, Tail: []string{"huphold"}, End: "cancel"},
 	{Target: "cluster", Round: []string{"push", "subd"}, Rounds: 2, End: "stop"},
 	{Target: "sup", Caps: []string{"1110", "http"}, Round: []string{"hup", "rtrig", "sub"}, Rounds: 2, End: "shutdown", Tail: []string{"subk"}},
 	// a reload trigger still pending (the manager is inside a slow pass) when the supervisor shuts down; the
